@@ -12,7 +12,8 @@ LEVEL_NOTE = ("proof for the three modelled readers (single Newick via the C01 m
               "encoding/xml / encoding/json (trusted, observed only); stack and heap exhaustion under huge nesting is observed "
               "only (thorough tier)")
 RULE = ("cases = (format, bytes) for the five formats newick | multi (multi-Newick stream) | nexus | phyloxml | nextstrain. "
-        "Valid documents are generated from random trees (2..12 tips, lengths/supports/inner names/comments): Newick text; "
+        "Valid documents are generated from random trees (2..12 tips, lengths/supports/inner names/comments; numbers dyadic or, for "
+        "10% of the trees, full-precision binary64 values with 16-17 significant digits): Newick text; "
         "multi-Newick streams with 1..6 trees laid out one per line, over several lines, several per line, with blank and "
         "whitespace-only lines, trailing blanks, CRLF, no final newline, lines longer than bufio's 4096-byte buffer, streams of "
         "5..40 KB whose trees (150..400 tips) are wrapped at random commas so that statements straddle the buffer refills; Nexus "
@@ -68,6 +69,19 @@ def rand_names(rng, n, odd=0.15):
             out.append("t%d" % i)
     return out
 
+import struct as _struct, math as _math
+
+def full_double(rng):
+    r = rng.random()
+    if r < 0.5:
+        bits = ((1023 + rng.randint(-20, 20)) << 52) | rng.getrandbits(52)
+        x = _struct.unpack(">d", _struct.pack(">Q", bits))[0]
+    elif r < 0.7:
+        x = _math.nextafter(rng.choice([0.1, 0.2, 0.3, 0.7, 1.1, 2.5, 123.456, 1e-5]), rng.choice([0.0, 1e9]))
+    else:
+        x = rng.choice([0.1 * 3, 0.1 + 0.2, 1.0 / 3, 2.0 / 3, 1.0 / 7, 1.1 * 1.1, 1e-7 / 3, 1e22 / 3])
+    return Fraction(x)
+
 def rand_tree(rng, lo=2, hi=12, names=None):
     g = Gen(rng)
     n = rng.randint(lo, hi) if names is None else len(names)
@@ -75,9 +89,14 @@ def rand_tree(rng, lo=2, hi=12, names=None):
                inner_names=rng.random() < 0.25, comments=False)
     nm = names or rand_names(rng, n)
     i = 0
+    full = rng.random() < 0.1        # full-precision binary64 lengths/supports (16-17 significant digits)
     for x in preorder(t):
         if not kids(x):
             x["name"] = nm[i]; i += 1
+        if full:
+            for e, c in kids(x):
+                if e["len"] is not None and rng.random() < 0.6: e["len"] = full_double(rng)
+                if e["sup"] is not None and rng.random() < 0.6: e["sup"] = full_double(rng)
     return t
 
 def nwk(rng, t, top=True, comments=0.0):
